@@ -13,7 +13,7 @@ import tempfile
 import numpy as np
 
 from ..core import violation, Discard
-from ..gen_scenes import gen_chain_scene, gen_contact_scene
+from ..gen_scenes import gen_chain_scene, gen_contact_scene, gen_rod_scene
 from ..scenes import build, FrameMotion
 from ..seams import Sim
 from ..session import gen_solver, project_velocities, run_solver, require_regular, body_states, make_options
@@ -51,10 +51,15 @@ REQUIRED_PROBES = {"quick": ["split_executed", "restart_via_file", "copy_after_f
 
 def gen(rng, tier, index):
     name = SOLVERS[index % len(SOLVERS)]
-    kind = ["chain", "revolute_spring", "contact", "chain"][(index // len(SOLVERS)) % 4]
+    kind = ["chain", "revolute_spring", "contact", "chain", "rod"][(index // len(SOLVERS)) % 5]
     if name == "ScipyIVP" and kind == "contact":
         kind = "chain"
-    if kind == "contact":
+    if kind == "rod":
+        # a Cosserat rod between a support and (optionally) a rigid body: its own coordinates, internal constraints
+        # and the joints at its ends are re-initialised too
+        name = ["Rattle", "BackwardEuler", "DualStormerVerlet", "Moreau", "Rattle"][index % len(SOLVERS)]
+        scene = gen_rod_scene(rng)
+    elif kind == "contact":
         scene = gen_contact_scene(rng, nspheres=int(rng.integers(1, 3)), allow_s2s=True)
     elif kind == "revolute_spring":
         scene = gen_chain_scene(rng, nbodies=int(rng.integers(1, 3)), joints=["revolute"], rigid_only=True, allow_loop=False, allow_frames=False, speed=3.0)
@@ -69,6 +74,9 @@ def gen(rng, tier, index):
         scene = gen_chain_scene(rng, nbodies=int(rng.integers(1, 4)), allow_loop=False)
     n = int(rng.integers(16, 48))
     dt = float(10 ** rng.uniform(-2.7, -2.0))
+    if kind == "rod":
+        n = int(rng.integers(10, 30))
+        dt = float(10 ** (rng.uniform(-3.6, -3.1) if name in ("Moreau", "DualStormerVerlet") else rng.uniform(-2.7, -2.0)))
     if kind == "revolute_spring":
         # long enough for the joint to travel more than half a turn between an early split and the end
         n = int(rng.integers(30, 64))
@@ -104,10 +112,14 @@ def gen(rng, tier, index):
 def _pose(B, ref, t, q):
     if ref == "origin":
         return np.zeros(3), np.eye(3)
-    kind, i = ref
+    kind, i = ref[0], ref[1]
     if kind == "frame":
         fm = B.frame_motions[i]
         return fm.r(t), fm.A(t)
+    if kind == "rod":
+        rod, xi = B.rods[i], float(ref[2])
+        qe = q[rod.qDOF][rod.local_qDOF_P(xi)]
+        return rod.r_OP(t, qe, xi), rod.A_IB(t, qe, xi)
     qb = q[B.bodies[i].qDOF]
     if B.scene["bodies"][i]["kind"] == "rigid":
         return qb[:3], rot.quat_to_mat(qb[3:])
@@ -130,9 +142,12 @@ def tracked_angles(B, sol, k, base=None):
     def plan_A(ref_):
         if ref_ == "origin":
             return np.eye(3)
-        kind, i = ref_
+        kind, i = ref_[0], ref_[1]
         if kind == "frame":
             return B.frame_motions[i].A(sc.get("t0", 0.0))
+        if kind == "rod":
+            rod, xi = B.rods[i], float(ref_[2])
+            return rod.A_IB(0.0, rod.Q[rod.local_qDOF_P(xi)], xi)
         return body_pose(sc["bodies"][i])[1]
 
     for j, jt in enumerate(sc["joints"]):
@@ -243,6 +258,8 @@ def execute(plan, out, log):
             out["probes"]["revolute_present" if any(j["type"] == "revolute" for j in B.scene["joints"]) else "other_joint_present"] += 1
         if B.contacts:
             out["probes"]["contact_present"] += 1
+        if getattr(B, "rods", None):
+            out["probes"]["rod_present"] += 1
         try:
             for k in plan["splits"]:
                 if k < 1 or k >= N:
@@ -278,8 +295,12 @@ def execute(plan, out, log):
                     if tmpdir is None:
                         tmpdir = tempfile.mkdtemp(prefix="cardsim-c24-")
                     path = os.path.join(tmpdir, f"leg1_{k}.pkl")
-                    sol1.save(path)
-                    back = load_solution(path)
+                    try:
+                        sol1.save(path)
+                        back = load_solution(path)
+                    except Exception as e:
+                        # the save / load contract is C20's subject (checked there on the same kinds of systems)
+                        raise Discard(f"save_load_raised:{type(e).__name__}")
                     tk, qk, uk = float(back.t[k]), np.array(back.q[k]), np.array(back.u[k])
                     out["probes"]["restart_via_file"] += 1
                 out["faults"]["F3_crash_restart"] += 1
